@@ -379,8 +379,13 @@ func filter9(ids []int) (any, string) {
 	}
 	var fs []any
 	var gs []string
-	for _, id := range ids {
-		fs = append(fs, map[string]any{"id": uid(id).String()})
+	for k, id := range ids {
+		// both forms callers use: the id as text, or as a uuid.UUID (the form the runtime's own event handlers use)
+		if (id+k+len(ids))%2 == 0 {
+			fs = append(fs, map[string]any{"id": uid(id).String()})
+		} else {
+			fs = append(fs, map[string]any{"id": uid(id)})
+		}
 		gs = append(gs, fmt.Sprint(id))
 	}
 	if len(fs) == 1 {
